@@ -108,11 +108,11 @@ ADD4 = {
  "C02": " Round 4: a guard that leaves the section other than by the await abort / assertion failure is a mismatch; the runtime's goto/call/return semantics (CALL-ORDER, KIND-STACK) are decided under this property as well; specifications can be mutated in memory, so spec-side edits are part of the self-tests.",
  "C05": " Round 4: GOB-WHOLE - a hand-written GobEncode ships the whole value (components of the receiver itself, announced lengths, every element on every path, every collection-typed field).",
  "C06": " Round 4: MB-CONN-DROP (a failed exchange ends the connection, so a stale reply is never read as the reply to a retried section), ONESHOT-FRESH (a time.After channel bounds one wait), DEADLINE-SCOPED (a deadline armed on a connection is cleared before the function returns), OutputChan.Commit forgets what it sent.",
- "C07": " Round 4: ONESHOT-FRESH for the timed acquire.",
+ "C07": " Round 4: ONESHOT-FRESH for the timed acquire; CELL-RESTORE (the cell behind a shared variable and its wrappers are rolled back by Abort) and CS-ORDER (the driver aborts / commits every dirty handle) are decided under this property as well: releasing the lock at Abort is serializable only if the cell was rolled back first.",
  "C08": " Round 4: the five contexts of a server get the ids of the specification's five process sets (RAFT-WIRING self-id clauses).",
  "C12": " Round 4: GOB-WHOLE (see C05) - an entry filtered out before encoding is an update lost in transport.",
  "C13": " Round 4: the merge rules of the CRDT value types (MERGE-COMPONENT, MERGE-MONO, OPERAND-TRAVERSED, CRDT-DECISION, GOB-WHOLE) are decided under this property too, since 'received state is never lost' depends on them; every broadcast call has its own deadline (ONESHOT-FRESH); the snapshot is merged with the received state only.",
- "C17": " Round 4: RUN-OUTCOME (the runtime's wrappers hand on what Run returned, not a shadowing variable), CLOSE-BOUNDED (Close waits on no counter that only protocol messages reset), no call runs between Run's gate and the registration of its epilogue.",
+ "C17": " Round 4: NESTED-DECISION (protocol table of the nested-archetype resource); RUN-OUTCOME (the runtime's wrappers hand on what Run returned, not a shadowing variable), CLOSE-BOUNDED (Close waits on no counter that only protocol messages reset), no call runs between Run's gate and the registration of its epilogue.",
  "C18": " Round 4: VClock.Merge returns the accumulator, or an operand only where the other is empty.",
  "C19": " Round 4: DEADLINE-SCOPED (no absolute deadline is left on a served connection), the rpc.ErrShutdown test is made for every RPC error, ONESHOT-FRESH.",
 }
